@@ -201,6 +201,13 @@ theorem whitespace_only_text (s : Str) (hw : s.all isSpace = true) (a b : Bool) 
   have hr0 : rstrip ([] : Str) = [] := rfl
   cases a <;> cases b <;> simp [applyStrip, hl s hw, hr, hr0]
 
+/-- The side condition on text (`textClean`, part of `allOk`) is implied by well-formedness of the source
+(`srcWf`: no opening delimiter begins inside a text piece) whenever the tag and output delimiters are the default
+`{%` and `{{` — with or without shorthand comments. -/
+theorem wf_text_is_clean (d : Delims) (hd1 : d.tagS = ['{', '%']) (hd2 : d.stmtS = ['{', '{']) (s next : Str)
+    (h : (Piece.text s).wf d next = true) : textClean s = true :=
+  wf_text_clean d hd1 hd2 s next h
+
 /-! ## token start offsets (used by C20) -/
 
 /-- **Start offsets.** Every `tag`, `expression` and `output` token the lexer yields for a source assembled from
